@@ -24,26 +24,43 @@ func ShortMethod(m string) string {
 	return Enc(m)
 }
 
-// DLBucket classifies the time left at arrival: the nearest of 15 s (gun default), 40 s, 90 s (the
-// configurable values the generators use); margins are >= 12 s.
+// dlCandidates are the timeouts (ms) the generators configure (0 = the guns' 15 s default).
+var dlCandidates = []int64{2000, 3000, 15000, 40000, 65000, 90000, 115000}
+
+// DLBucket classifies the time left at arrival. The time left can only be smaller than the timeout the call was
+// made with, so the bucket is the smallest candidate not below it, provided the call did not take implausibly
+// long to arrive (10 s for the long timeouts, 1.6 s for the short ones: anything slower is reported as "dl?…",
+// which the Lean driver counts as inconclusive, never as a failure).
 func DLBucket(ms int64) string {
 	if ms < 0 {
 		return "dlnone"
 	}
-	best, bestD := int64(0), int64(1<<62)
-	for _, c := range []int64{15000, 40000, 90000} {
-		d := c - ms
-		if d < 0 {
-			d = -d
+	for _, c := range dlCandidates {
+		if ms > c+50 {
+			continue
 		}
-		if d < bestD {
-			best, bestD = c, d
+		tol := int64(10000)
+		if c < 15000 {
+			tol = 1600
 		}
+		if c-ms > tol {
+			break
+		}
+		if c%1000 == 0 {
+			return "dl" + strconv.FormatInt(c/1000, 10)
+		}
+		return "dl" + strconv.FormatInt(c, 10) + "ms"
 	}
-	if bestD > 10000 {
-		return "dl?" + strconv.FormatInt(ms/1000, 10)
+	return "dl?" + strconv.FormatInt(ms/1000, 10)
+}
+
+// DistinctPeers counts the connections that carried the given calls.
+func DistinctPeers(cs []Call) int {
+	seen := map[string]bool{}
+	for _, c := range cs {
+		seen[c.Peer] = true
 	}
-	return "dl" + strconv.FormatInt(best/1000, 10)
+	return len(seen)
 }
 
 func CallText(c Call) string {
